@@ -54,7 +54,7 @@ def tuple_route(shape, op):
         return None   # (an Ellipsis in the key keeps it off that route)
     if op.get("bare") and len(op["key"]) == 1:
         return None
-    if all(isinstance(p, int) for p in op["key"]):
+    if op["key"] and all(isinstance(p, int) for p in op["key"]):
         return list(op["key"])
     return None
 
@@ -88,6 +88,9 @@ def classify(name, case, msg):
                 return "F-dok-fancy-empty"
             if op["vshape"] == [1] and len(op["idxs"][0]) != 1 and accepted and "raised ValueError" in msg:
                 return "F-dok-fancy-bcast1"
+        if form == "set" and lean and op["key"] == [] and not op.get("ell") and accepted and (
+                "raised IndexError" in msg or "raised NotImplementedError" in msg):
+            return "F-dok-empty-tuple-key"
         if form == "set" and lean and tuple_route(shape, op) is not None and stores_raw(shape, op) and not accepted:
             return "F-dok-fancy-raw-index"
         if form == "set" and lean and neg_step_start0(shape, op["key"]) and (
